@@ -161,9 +161,11 @@ func (c *ChunkIterators) Next() (uint64, *record.Record, error) {
 	c.merged.Merge(rec)
 
 	if !itr.Next() {
+		// Close hands the iterator's parts back for reuse: take its error first
+		err := itr.err
 		itr.Close()
-		if itr.err != nil {
-			return 0, nil, itr.err
+		if err != nil {
+			return 0, nil, err
 		}
 	} else {
 		heap.Push(c, itr)
@@ -184,9 +186,10 @@ func (c *ChunkIterators) Next() (uint64, *record.Record, error) {
 		}
 
 		if !itr.Next() {
+			err := itr.err
 			itr.Close()
-			if itr.err != nil {
-				return 0, nil, itr.err
+			if err != nil {
+				return 0, nil, err
 			}
 			continue
 		}
